@@ -1,16 +1,59 @@
 /-
 C12 — disk -> archive -> disk reproduces the tree.
-Property theorems over `LA.Tree` (lean/LA/Model/Tree.lean).
+
+Property theorems over `LA.Tree` (lean/LA/Model/Tree.lean): the walk of
+archive_read_disk (`capture`), the C17 link resolver (`linkify`), an abstract POSIX
+tree, and archive_write_disk with deferred directory fix-ups (`restore`).  Helper
+lemmas live in LA/Lemmas/Tree*.lean.
 -/
-import LA.Lemmas.TreeLnk
-import LA.Lemmas.TreeSort
+import LA.Lemmas.TreeFinal
+set_option linter.unusedSimpArgs false
+set_option linter.unusedVariables false
 namespace LA.C12
 open LA.Tree
 
-/-- `bsdtar -t` lists exactly the captured names, in capture order. -/
-theorem list_eq_capture_paths (es : List Entry) (h : LinkOk es) (hn : ∀ e ∈ es, e.hardlink = none) :
-    listing (linkify .tar es) = es.map (·.path) := by
-  rw [linkify_tar_eq es h hn]
-  exact tarSpec_paths es
+/-! ### witnesses used by the `example`s -/
+
+def tm (s : Int) : Time := ⟨s, 500⟩
+def fileA : Inode := { ino := 10, nlink := 2, ftype := .reg, md := ⟨0o444, tm 7⟩, payload := .data ⟨3, 1, [(0, 3)]⟩ }
+def linkB : Inode := { ino := 11, nlink := 1, ftype := .lnk, md := ⟨0o777, tm 8⟩, payload := .target [46, 46] }
+/-- `.`(0755) ⊃ `a`(0555) ⊃ {`x` (file, 2 links), `d`(0700, empty)}, `b` = second link of `a/x`,
+`c`(0777) ⊃ `s` (symlink). -/
+def sample : Node :=
+  .dir ⟨0o755, tm 1⟩
+    (.cons [97] (.dir ⟨0o555, tm 2⟩ (.cons [120] (.leaf fileA) (.cons [100] (.dir ⟨0o700, tm 9⟩ .nil) .nil)))
+    (.cons [98] (.leaf fileA)
+    (.cons [99] (.dir ⟨0o777, tm 3⟩ (.cons [115] (.leaf linkB) .nil)) .nil)))
+
+/-! ### the walk -/
+
+/-- **Each object of the tree is visited exactly once**: whatever the `readdir` order, the entries
+`archive_read_disk` hands out are a permutation of the tree's objects, and (sibling names being
+distinct) no path comes twice. -/
+theorem capture_visits_once (t : Node) (h : t.namesOk = true) :
+    (capture t).Perm (t.objects []) ∧ ((capture t).map (·.path)).Nodup :=
+  ⟨capture_perm_objects t, capture_paths_nodup t h⟩
+
+example : sample.namesOk = true ∧ (capture sample).length = 7 := by decide
+
+/-- A directory is handed out before anything below it. -/
+theorem capture_parents_first (m : Meta) (cs : Forest) :
+    ParentsOk [[]] ((capture (.dir m cs)).drop 1) := by
+  simpa [capture] using capture_parents m cs
+
+/-! ### capture -> linkify -> restore -/
+
+/-- **Disk → archive → disk is the identity on trees** (tar link strategy, "matching
+options": permissions and times restored by the owner).  For every finite tree with
+consistent hard-link groups, every `readdir` order, every umask, for root and for a
+non-root user extracting into a directory he may write: every entry is restored without
+error and the result has the same names, and per name the same type and content, mode
+and mtime — including read-only and unsearchable directories and the mtimes of
+directories — and the same hard-link structure. -/
+theorem restore_capture_id (t : Node) (ht : TreeOk t) (o : Opts) (ho : OptsOk o) (dstMode : Nat)
+    (hdst : o.root = true ∨ (dstMode &&& 0o200 ≠ 0 ∧ dstMode &&& 0o100 ≠ 0)) :
+    (∀ s ∈ (restore o dstMode (linkify .tar (capture t))).2, s = .ok) ∧
+      SameTree (restore o dstMode (linkify .tar (capture t))).1 (toFS t) :=
+  restore_capture_same t ht o ho dstMode hdst
 
 end LA.C12
